@@ -176,7 +176,18 @@ func c18GenSchemaX(r *core.Rng, rich bool) (*yang.Stmt, *snode) {
 			}
 			switch core.Pick(r, kinds) {
 			case "leaf":
-				s, sn := leaf(nm("l"), true)
+				lname := nm("l")
+				if depth > 1 && !inCase && r.Chance(1, 4) {
+					// names are unique among siblings only: the same leaf name at several levels
+					taken := false
+					for _, x := range sns {
+						taken = taken || x.name == "same"
+					}
+					if !taken {
+						lname = "same"
+					}
+				}
+				s, sn := leaf(lname, true)
 				ss, sns = append(ss, s), append(sns, sn)
 			case "leaf-list":
 				name := nm("ll")
@@ -248,6 +259,13 @@ func c18GenSchemaX(r *core.Rng, rich bool) (*yang.Stmt, *snode) {
 								if kk.kw == "leaf" && kk.typeName != "empty" {
 									cands = append(cands, "~"+k.name+"/~"+cse.name+"/"+kk.name)
 								}
+								if kk.kw == "container" && !kk.presence {
+									for _, k3 := range kk.kids {
+										if k3.kw == "leaf" && k3.typeName != "empty" {
+											cands = append(cands, "~"+k.name+"/~"+cse.name+"/"+kk.name+"/"+k3.name)
+										}
+									}
+								}
 							}
 						}
 					}
@@ -288,11 +306,21 @@ func c18GenSchemaX(r *core.Rng, rich bool) (*yang.Stmt, *snode) {
 						sn.kids = append(sn.kids, &snode{kw: "case", name: ln.name, kids: []*snode{ln}})
 						continue
 					}
+					if depth < 4 && r.Chance(1, 4) {
+						// shorthand case that is a container: the implicit case bears the container's name
+						scn := nm("sc")
+						sc := yang.S("container", scn)
+						ks, kn := genKids(depth+2, r.Range(1, 2), false)
+						sc.Add(ks...)
+						s.Add(sc)
+						sn.kids = append(sn.kids, &snode{kw: "case", name: scn, kids: []*snode{{kw: "container", name: scn, kids: kn}}})
+						continue
+					}
 					cname := nm("ca")
 					if r.Chance(1, 2) {
 						// case names are scoped to their choice: cases of different choices may share a name, and
 						// a case may be named like its choice
-						for _, cand := range []string{"v4", "v6", name} {
+						for _, cand := range []string{"v4", "v6", name, "k"} {
 							taken := false
 							for _, k := range sn.kids {
 								taken = taken || k.name == cand
